@@ -1,7 +1,9 @@
 mod acts;
 mod common;
+mod grids;
 mod ledger;
 mod menu;
+mod own;
 mod probe_checks;
 mod probes;
 mod scen;
@@ -42,6 +44,7 @@ fn main() {
         let body: serde_json::Value = serde_json::from_str(&std::fs::read_to_string(&p).expect("replay file")).expect("replay json");
         let code = match body["kind"].as_str() {
             Some("path") => common::replay_path(&prop, &body, scenarios_for(&prop)),
+            Some("own") => own::replay_file(&body),
             _ => {
                 println!("MACHINERY-ERROR: unsupported replay kind");
                 2
@@ -50,8 +53,12 @@ fn main() {
         exit(code);
     }
     let code = match prop.as_str() {
-        "C01" | "C02" | "C03" | "C05" | "C06" | "C07" | "C11" | "C15" => ledger::run(&prop, thorough),
+        "C01" | "C02" | "C03" | "C05" | "C06" | "C07" | "C15" => ledger::run(&prop, thorough),
+        "C11" => grids::run_c11(thorough),
         "C08" | "C10" | "C16" | "C17" => probe_checks::run(&prop, thorough),
+        "C12" => own::run(thorough),
+        "C04" => grids::run_c04(thorough),
+        "C09" => grids::run_c09(thorough),
         _ => {
             println!("MACHINERY-ERROR: unknown property {prop}");
             2
